@@ -271,6 +271,105 @@ def tree_facts(repo: Path):
     return out
 
 
+def async_std_backend(repo: Path):
+    """Round 4 (agent asyncstd): facts about ractor/src/concurrency/async_std_primitives.rs that the models
+    (written after the tokio primitives) rely on when ractor is built with `--features async-std`.
+    Everything is a normalised piece of source text / a textual order; sentinels ("" / [] / false) when the
+    shape is not found, so that the `by decide` obligation fails rather than the extractor.
+
+    * sleep / timeout: the async-std call they forward to, with the duration passed on unchanged, and the
+      error mapped to `Timeout`;
+    * JoinHandle::abort -> AbortHandle::abort; every spawn form awaits `Abortable::new(future, abort_registration)`
+      as the FIRST thing of the task and sets the `is_done` flag after it; JoinHandle::poll maps the three cases;
+    * interval: first tick immediately (`next_tick: Instant::now()`), `tick` = read the clock, sleep the
+      remaining time only if the tick lies in the future, then `next_tick += dur` (fixed-rate, no drift);
+    * JoinSet: futures are polled inline by the joiner (FuturesUnordered), `join_next` never reports a join error;
+    * the `verif::controlled` hook wraps the future BEFORE the Abortable wrapper in spawn_local / spawn_named
+      (an abort therefore drops the controlled future, exactly as tokio's abort does)."""
+    src = strip_comments(read(repo, "ractor/src/concurrency/async_std_primitives.rs"))
+    # cut the test module off
+    ti = src.find("#[cfg(test)]")
+    if ti >= 0:
+        src = src[:ti]
+
+    def norm(t):
+        return re.sub(r"\s+", "", t or "")
+
+    sleep_body = norm(fn_body(src, "sleep"))
+    timeout_body = norm(fn_body(src, "timeout"))
+    ji = src.find("impl<T> JoinHandle<T>")
+    abort_body = norm(fn_body(src, "abort", ji if ji >= 0 else 0))
+    isfin_body = norm(fn_body(src, "is_finished", ji if ji >= 0 else 0))
+    # the task bodies handed to async-std: `async move { let r = <X>.await; inner_signal.fetch_or(..); r }`
+    tasks = re.findall(r"async move \{\s*let r = (.*?)\.await;\s*(.*?);\s*r\s*\}", src, flags=re.S)
+    spawn_awaits = [norm(a) for a, _ in tasks]
+    spawn_then = [norm(b) for _, b in tasks]
+    spawn_calls = re.findall(r"(async_std::task::spawn_local|async_std::task::spawn|async_std::task::Builder::new\(\))", src)
+    pi = src.find("impl<T> async_std::future::Future for JoinHandle<T>")
+    poll_body = fn_body(src, "poll", pi if pi >= 0 else 0) or ""
+    # the three arms of `match inner_polled_value`: pattern => last expression of the arm
+    arms = []
+    m = re.search(r"match inner_polled_value\s*\{(.*)\}", poll_body, flags=re.S)
+    if m:
+        for pat, rest in re.findall(r"(Poll::\w+(?:\([^=]*?\))?)\s*=>\s*(\{.*?\}|[^,]+),?", m.group(1), flags=re.S):
+            exprs = [e for e in re.split(r"[;{}]", rest) if e.strip()]
+            arms.append(norm(pat) + "=>" + norm(exprs[-1] if exprs else ""))
+    m = re.search(r"pub fn interval\(dur: Duration\) -> Interval\s*\{\s*Interval\s*\{(.*?)\}\s*\}", src, flags=re.S)
+    interval_init = norm(m.group(1)) if m else ""
+    ii = src.find("impl Interval")
+    tick = fn_body(src, "tick", ii if ii >= 0 else 0) or ""
+    tick_steps = [norm(x) for x in re.findall(
+        r"(let now = Instant::now\(\)|if self\.next_tick > now|sleep\(self\.next_tick - now\)\.await|self\.next_tick \+= self\.dur)", tick)]
+    tick_stmts = len([x for x in re.split(r"[;{}]", tick) if x.strip()])
+    si = src.find("impl<T> JoinSet<T>")
+    js_spawn = norm(fn_body(src, "spawn", si if si >= 0 else 0))
+    js_next = norm(fn_body(src, "join_next", si if si >= 0 else 0))
+    hooks = []
+    for f in ("spawn_local", "spawn_named"):
+        m = re.search(r"pub fn " + f + r"\b", src)
+        b = fn_body(src, f, m.start() if m else 0) or ""
+        h = b.find("crate::verif::controlled(")
+        a = b.find("AbortHandle::new_pair()")
+        if 0 <= h < a and re.search(r'#\[cfg\(feature = "verif"\)\]\s*let future = crate::verif::controlled\((None|name), future\);', b):
+            hooks.append(f)
+    plain_spawn = norm(fn_body(src, "spawn", src.find("pub fn spawn<F>") if src.find("pub fn spawn<F>") >= 0 else 0))
+    # cfg twins in actor_cell.rs: the `#[cfg(feature = "async-std")]` block of listen_in_priority / run_with_signal
+    # equals the `#[cfg(not(feature = "async-std"))]` block once `(<e>).fuse()` / `<e>.fuse()` is read as `<e>`
+    cell = strip_comments(read(repo, "ractor/src/actor/actor_cell.rs"))
+
+    def cfg_blocks(body):
+        out = {}
+        for m in re.finditer(r'#\[cfg\((not\()?feature = "async-std"\)?\)\]\s*\{', body or ""):
+            i = m.end() - 1
+            depth, k = 0, i
+            while k < len(body):
+                if body[k] == "{":
+                    depth += 1
+                elif body[k] == "}":
+                    depth -= 1
+                    if depth == 0:
+                        break
+                k += 1
+            out["tokio" if m.group(1) else "async-std"] = body[i + 1:k]
+        return out
+
+    def unfuse(t):
+        t = norm(t)
+        t = re.sub(r"\((&mutself\.\w+)\)\.fuse\(\)", r"\1", t)
+        return t.replace(".fuse()", "")
+    twins = []
+    for f in ("listen_in_priority", "run_with_signal"):
+        b = cfg_blocks(fn_body(cell, f))
+        twins.append((f, "tokio" in b and "async-std" in b and unfuse(b["async-std"]) == norm(b["tokio"])
+                      and b["async-std"].count(".fuse()") == b["async-std"].count("=>")))
+    return {
+        "sleep": sleep_body, "timeout": timeout_body, "abort": abort_body, "is_finished": isfin_body,
+        "spawn_calls": spawn_calls, "spawn_awaits": spawn_awaits, "spawn_then": spawn_then,
+        "poll_arms": arms, "interval_init": interval_init, "tick_steps": tick_steps, "tick_stmts": tick_stmts,
+        "js_spawn": js_spawn, "js_next": js_next, "hooks": hooks, "plain_spawn": plain_spawn, "twins": twins,
+    }
+
+
 def main():
     ap = argparse.ArgumentParser()
     ap.add_argument("--repo", default="/repo")
@@ -462,6 +561,37 @@ def main():
     w("")
     w("/-- `thread_local/inner.rs` twins token-identical to `actor.rs` (modulo the boxed loop future) -/")
     w(f"def threadLocalTwins : List (String × Bool) := [{', '.join(f'({lean_str(k)}, {str(v).lower()})' for k, v in twins.items())}]")
+    w("")
+    # ---- async-std backend (round 4, agent asyncstd) ------------------------------------------
+    try:
+        ab = async_std_backend(repo)
+    except Exception as e:  # sentinels: the obligations fail, the extractor does not
+        print(f"extract: async_std_backend failed: {e}", file=sys.stderr)
+        ab = {k: "" for k in ("sleep", "timeout", "abort", "is_finished", "interval_init", "js_spawn", "js_next", "plain_spawn")}
+        ab.update({k: [] for k in ("spawn_calls", "spawn_awaits", "spawn_then", "poll_arms", "tick_steps", "hooks")})
+        ab["tick_stmts"] = 0
+        ab["twins"] = []
+    w("/-- async-std backend (`ractor/src/concurrency/async_std_primitives.rs`), whitespace-free source text -/")
+    w(f"def asyncStdSleepBody : String := {lean_str(ab['sleep'])}")
+    w(f"def asyncStdTimeoutBody : String := {lean_str(ab['timeout'])}")
+    w(f"def asyncStdAbortBody : String := {lean_str(ab['abort'])}")
+    w(f"def asyncStdIsFinishedBody : String := {lean_str(ab['is_finished'])}")
+    w("/-- the async-std spawn calls in source order (spawn_local; spawn_named: named, unnamed) -/")
+    w(f"def asyncStdSpawnCalls : List String := {lean_strs(ab['spawn_calls'])}")
+    w("/-- per spawned task body: the expression awaited first, and the statement between it and the result -/")
+    w(f"def asyncStdSpawnAwaits : List String := {lean_strs(ab['spawn_awaits'])}")
+    w(f"def asyncStdSpawnThen : List String := {lean_strs(ab['spawn_then'])}")
+    w(f"def asyncStdPlainSpawnBody : String := {lean_str(ab['plain_spawn'])}")
+    w(f"def asyncStdJoinPollArms : List String := {lean_strs(ab['poll_arms'])}")
+    w(f"def asyncStdIntervalInit : String := {lean_str(ab['interval_init'])}")
+    w(f"def asyncStdIntervalTickSteps : List String := {lean_strs(ab['tick_steps'])}")
+    w(f"def asyncStdIntervalTickStatements : Nat := {ab['tick_stmts']}")
+    w(f"def asyncStdJoinSetSpawnBody : String := {lean_str(ab['js_spawn'])}")
+    w(f"def asyncStdJoinSetJoinNextBody : String := {lean_str(ab['js_next'])}")
+    w("/-- actor_cell.rs: the async-std cfg block of the function equals the tokio one modulo `.fuse()` -/")
+    w(f"def asyncStdSelectTwins : List (String × Bool) := [{', '.join(f'({lean_str(k)}, {str(v).lower()})' for k, v in ab['twins'])}]")
+    w("/-- spawn functions whose future is wrapped by `verif::controlled` before the Abortable wrapper -/")
+    w(f"def asyncStdVerifHooks : List String := {lean_strs(ab['hooks'])}")
     w("")
     cc_casts, cc_sites = cluster_session_creation(repo)
     w("/-- C17: (client.rs connect fn, NodeServerMessage variant it casts, `is_server` literal) -/")
